@@ -43,7 +43,8 @@ pub fn sign(
     method: &str,
     canonical_path: &str,
     params: &[(Vec<u8>, Vec<u8>)],
-    signed_headers: &[(String, Vec<Vec<u8>>)], // lower-case name -> values in arrival order (raw)
+    signed_headers: &[(String, Vec<Vec<u8>>)], // lower-case name -> values in arrival order (raw), present ones
+    signed_list: &[String],                    // the declared list (may name absent headers)
     payload: &[u8],
     instant: Instant,
     scope: &str,
@@ -70,7 +71,8 @@ pub fn sign(
         cr.push(b'\n');
     }
     cr.push(b'\n');
-    let list: Vec<&str> = names.iter().map(|e| e.0.as_str()).collect();
+    let mut list: Vec<&str> = signed_list.iter().map(|e| e.as_str()).collect();
+    list.sort();
     cr.extend_from_slice(list.join(";").as_bytes());
     cr.push(b'\n');
     cr.extend_from_slice(hex_lower(&sha256(payload)).as_bytes());
@@ -170,7 +172,7 @@ pub fn build(p: &Plan) -> Built {
                 params.extend(bp.iter().cloned());
             }
             let sh = group(&headers, &p.signed);
-            let s = sign(&p.method, &cpath, &params, &sh, payload, p.instant, &p.scope, &p.key);
+            let s = sign(&p.method, &cpath, &params, &sh, &p.signed, payload, p.instant, &p.scope, &p.key);
             let fields = [
                 format!("Credential={}", credential),
                 format!("SignedHeaders={}", signed_sorted.join(";")),
@@ -202,7 +204,7 @@ pub fn build(p: &Plan) -> Built {
                 params.extend(bp.iter().cloned());
             }
             let sh = group(&headers, &p.signed);
-            let s = sign(&p.method, &cpath, &params, &sh, payload, p.instant, &p.scope, &p.key);
+            let s = sign(&p.method, &cpath, &params, &sh, &p.signed, payload, p.instant, &p.scope, &p.key);
             let mut q = user_query;
             if !q.is_empty() {
                 q.push('&');
